@@ -1,6 +1,7 @@
 /-
   C19 — Declarations are read faithfully or rejected at setup.
 -/
+import GoFlags.Props.C19.Trans
 import GoFlags.Props.C19.Facts
 import GoFlags.Scan
 import GoFlags.Lemmas.TagScan
